@@ -22,6 +22,7 @@ type region struct {
 	frozen    bool
 	revisions int
 	large     int
+	pencils   int
 	nOrig     int
 	revOf     []int // indices of (original, revision, probe) when a revision exists
 	focus     []int // when set, geometry arguments are drawn from these operands only
@@ -102,6 +103,7 @@ type pool struct {
 	frozen    bool
 	revisions int
 	large     int
+	pencils   int
 	nOrig     int
 	revOf     []int // indices of (original, revision, probe) when a revision exists
 	focus     []int // when set, geometry arguments are drawn from these operands only
@@ -160,6 +162,34 @@ func buildPool(m *vs.Stream, freeze bool) (*pool, error) {
 		}
 		if attempt >= 2 {
 			general = false // give up: fall back to the lattice class
+		}
+	}
+	// occasionally a "pencil": 3-5 lattice segments that all pass through one
+	// point with non-dyadic coordinates (x0+1/3, y0+2/3), split over two
+	// operands. The pairwise crossing points are then distinct floats a few ulps
+	// apart: concurrent edges, an exact degeneracy of the lattice domain that
+	// exercises node snapping (and any dependence of it on iteration order).
+	if !general && m.Intn(6, "pool/pencil") == 5 {
+		x0, y0 := 1+m.Intn(p.lat.Side-1, "pencil/x"), 1+m.Intn(p.lat.Side-1, "pencil/y")
+		k := 3 + m.Intn(3, "pencil/k")
+		var a, b []geom.LineString
+		for i := 0; i < k; i++ {
+			ax, ay := m.Intn(p.lat.Side+1, "pencil/ax"), m.Intn(p.lat.Side+1, "pencil/ay")
+			dx, dy := 3*(x0-ax)+1, 3*(y0-ay)+2
+			fs := p.reg.alloc(4)
+			fs[0], fs[1] = p.lat.X(ax), p.lat.Y(ay)
+			fs[2], fs[3] = p.lat.X(ax)+float64(dx)*p.lat.Unit, p.lat.Y(ay)+float64(dy)*p.lat.Unit
+			ls := geom.NewLineString(geom.NewSequence(fs, geom.DimXY))
+			if i%2 == 0 {
+				a = append(a, ls)
+			} else {
+				b = append(b, ls)
+			}
+		}
+		ga, gb := geom.NewMultiLineString(a).AsGeometry(), geom.NewMultiLineString(b).AsGeometry()
+		if ga.Validate() == nil && gb.Validate() == nil {
+			p.geoms = append(p.geoms, ga, gb)
+			p.pencils++
 		}
 	}
 	// occasionally one large operand: a grid of 36-49 disjoint unit squares
